@@ -34,6 +34,10 @@ KEY_CONFIGS = [
     ('twocerts-rsaca-edca', ['rsa-sha2-512-cert-v01@openssh.com', 'ssh-ed25519-cert-v01@openssh.com'], {'rsa_bits': 3072, 'ca': 'rsa', 'ca_bits': 4096, 'ca_by_alg': {'ssh-ed25519-cert-v01@openssh.com': ('ed25519', 256)}}),
     ('twocerts-ecca-edca', ['ssh-rsa-cert-v01@openssh.com', 'ssh-ed25519-cert-v01@openssh.com', 'ssh-ed25519'], {'rsa_bits': 2048, 'ca': 384, 'ca_by_alg': {'ssh-ed25519-cert-v01@openssh.com': ('ed25519', 256)}}),
     ('twocerts-edca-rsaca', ['rsa-sha2-256-cert-v01@openssh.com', 'ssh-ed25519-cert-v01@openssh.com'], {'rsa_bits': 4096, 'ca': 'ed25519', 'ca_by_alg': {'ssh-ed25519-cert-v01@openssh.com': ('rsa', 2048)}}),
+    # several algorithm names of the RSA certificate family, each backed by a certificate of its own
+    ('rsacerts-2-cas', ['rsa-sha2-256-cert-v01@openssh.com', 'rsa-sha2-512-cert-v01@openssh.com'], {'rsa_bits': 3072, 'ca': 'rsa', 'ca_bits': 4096, 'ca_by_alg': {'rsa-sha2-512-cert-v01@openssh.com': ('ed25519', 256)}}),
+    ('rsacerts-3-cas', ['rsa-sha2-512-cert-v01@openssh.com', 'ssh-rsa-cert-v01@openssh.com', 'rsa-sha2-256-cert-v01@openssh.com', 'ssh-ed25519'],
+     {'rsa_bits': 4096, 'ca': 'rsa', 'ca_bits': 3072, 'ca_by_alg': {'ssh-rsa-cert-v01@openssh.com': (384, 384), 'rsa-sha2-256-cert-v01@openssh.com': ('rsa', 2048)}}),
 ]
 GEX_SIZES = [1024, 2048, 3072, 4096]
 # values of the free-form parts of a host certificate (none of them is a recorded attribute; all of them are the peer's to choose)
@@ -132,6 +136,16 @@ def perturbations(spec, role):
             s = copy.deepcopy(spec)
             s['hk'] = dict(hk, ca='rsa', ca_bits=4096)
             out.append(('ca-type', 'CA signature type', s))
+        # the certificate behind ONE algorithm name changes its CA (the other certificates stay as they are)
+        for alg, (ca, cab) in sorted((hk.get('ca_by_alg') or {}).items()) if probing else ():
+            if ca == 'rsa':
+                for nb in (cab + 1024, cab - 1024):
+                    s = copy.deepcopy(spec)
+                    s['hk']['ca_by_alg'][alg] = ('rsa', nb)
+                    out.append(('ca-size-of-one-certificate', 'CA signature size', s))
+            s = copy.deepcopy(spec)
+            s['hk']['ca_by_alg'][alg] = ('rsa', 4096) if ca != 'rsa' else ('ed25519', 256)
+            out.append(('ca-type-of-one-certificate', 'CA signature type', s))
         if isinstance(spec.get('gex'), dict):
             for alg in sorted(spec['gex']):
                 for g in GEX_SIZES:
